@@ -534,6 +534,44 @@ def non_reading_client(p):
             p.c.cmd("DEL", "c:big1m")
         except (Closed, Timeout, OSError):
             p.restart()
+    # the same client says QUIT behind its unread replies (small receive buffer, never reads, stays connected):
+    # the connection is closing with output it cannot deliver - that must not hold up anybody else
+    import socket as _socket
+    for tail in ([b"QUIT"], [b"CLIENT", b"KILL", b"ID", b"0"], [b"*notresp"]):
+        res.evaluations += 1
+        raw = None
+        try:
+            p.c.cmd("SET", "c:big1m", b"v" * (1 << 20))
+            raw = _socket.socket()
+            raw.setsockopt(_socket.SOL_SOCKET, _socket.SO_RCVBUF, 8192)
+            raw.settimeout(0.5)
+            raw.connect(("127.0.0.1", p.srv.port))
+            data = b"".join(resp.encode([b"GET", b"c:big1m"]) for _ in range(48)) + (resp.encode(tail) if tail[0][:1] != b"*" else b"*notresp\r\n")
+            try:
+                raw.sendall(data)
+            except OSError:
+                pass
+            time.sleep(0.4)
+            healthy = p.healthy(watchdog=10.0)
+        finally:
+            if raw is not None:
+                raw.close()
+        res.cell("flood", "closing-with-undeliverable-output", tail[0].decode("latin1"))
+        if not p.srv.alive():
+            err = p.srv.stderr_text()
+            res.violation("crash/closing-with-output/%s" % first_ferrous_frame(err[-6000:]),
+                          "(%s build) server exited %s: 48 x GET of 1 MiB + %s from a client that never reads\n%s" % (
+                              p.profile, p.srv.exit_status(), resp.show(tail), err[-1200:]))
+            p.restart()
+        elif not healthy:
+            res.violation("hang/closing-with-undeliverable-output", "a client that never reads sent 48 x GET of a 1 MiB value followed by %s and stayed connected: "
+                          "PING on a new connection went unanswered for 10 s (retried)" % resp.show(tail))
+            p.srv.kill()
+            p.restart()
+        try:
+            p.c.cmd("DEL", "c:big1m")
+        except (Closed, Timeout, OSError):
+            p.restart()
     p.check_sentinels("non-reading-client")
 
 
